@@ -17,6 +17,12 @@ CLAIMED = {
          "mismatching ragged values, plus boolean ragged-mask assignment: addressed cells take the value, every other cell and all row lengths unchanged, "
          "mismatching ragged values refused",
          "bounds: rows<=3 (4), row length<=3, bounds +-3 (5), column steps {None,-1,2} (+{1,-2,3}); column values on 64-bit vectors with rows<=2 (3), length<=2 (3)"),
+ "C04": ("4/C04", "unary ufuncs and binary ufuncs of a ragged array with a same-shaped ragged array, a Python int/bool or numpy scalar, or an (n_rows,1) column "
+         "vector on either side: result has the operand's row lengths, equals the ufunc applied by numpy to each row, has numpy's result dtype (NEP 50 "
+         "weak Python scalars included), operands unchanged; different row lengths refused.  Cells are bit-vectors of the true width so wrap-around "
+         "and the XOR-scatter/prefix-XOR column broadcast on reinterpreted bits are exact, for every itemsize 1/2/4/8 and mixed dtype pairs",
+         "bounds: rows<=3 (4), row length<=2 (3); ufuncs subtract/less/bitwise_and/maximum/add/bitwise_xor (+equal/minimum/floor_divide/logical_or), "
+         "unary negative/invert/logical_not/absolute; numpy bool scalars (not numbers.Number) and float arithmetic are outside the claim"),
  "C05": ("4/C05", "sum/prod/any/all/max/min and bitwise_or/xor/and.reduce per row through the method, np.<func> and ufunc.reduce entry points, keepdims, "
          "and axis=None, over symbolic row lengths with empty rows anywhere (all-empty and zero rows included); multiplication as an uninterpreted left fold",
          "bounds: rows<=4 (5), row length<=3 (4); max/min with non-empty rows; result element type not compared (C04's subject); mean/argmax/argmin not yet covered"),
